@@ -151,9 +151,22 @@ pub fn any_case() -> BoxedStrategy<AnyCase> {
         proptest::collection::vec((header_name(), any_header_value()), 0..10),
         prop_oneof![2 => Just(vec![]), 3 => proptest::collection::vec(any::<u8>(), 0..200), 2 => "[a-z%+&=]{0,80}".prop_map(|s| s.into_bytes()), 1 => proptest::collection::vec(prop_oneof![Just("a=1"), Just("&"), Just("%"), Just("X-Amz-Algorithm=AWS4-HMAC-SHA256"), Just("é="), Just("=%00")], 0..30).prop_map(|v| v.concat().into_bytes())],
         (region(), service(), wild_instant(), any::<bool>(), any::<bool>(), reqs(true)),
-        (crate::gen::secret(), access_key(), 0u8..6, 0u8..4, 0u8..15),
+        (crate::gen::secret(), access_key(), 0u8..6, 0u8..4, 0u8..15, (any::<u8>(), any::<u8>())),
     )
-        .prop_map(|((method, uri, version), headers, body, (region, service, now, s3, fold, reqs), (secret, ak, rp, cp, ans))| {
+        .prop_map(|((method, uri, version), headers, body, (region, service, now, s3, fold, reqs), (secret, ak, rp, cp, ans, blank))| {
+            let mut headers: Vec<(String, Vec<u8>)> = headers;
+            if blank.0 % 4 == 0 {
+                // an authentication header that occurs several times and is empty or blank every time
+                let name = ["authorization", "x-amz-date", "date", "x-amz-security-token"][(blank.1 % 4) as usize];
+                headers.retain(|(n, _)| !n.eq_ignore_ascii_case(name));
+                for i in 0..(2 + blank.1 / 4 % 3) {
+                    headers.push((name.to_string(), vec![b' '; ((blank.1 / 16 + i) % 3) as usize]));
+                }
+                if name != "authorization" && blank.0 % 8 == 0 {
+                    headers.retain(|(n, _)| !n.eq_ignore_ascii_case("authorization"));
+                    headers.insert(0, ("authorization".to_string(), format!("AWS4-HMAC-SHA256 Credential=AKIDEXAMPLE/20150830/us-east-1/service/aws4_request, SignedHeaders=host, Signature={}", "a".repeat(64)).into_bytes()));
+                }
+            }
             let req = WireRequest { method, uri, version, headers: headers.into_iter().map(|(n, v)| (n, B(v))).collect(), body: B(body) };
             let cfg = ServerConfig { region, service, now, s3, fold, reqs };
             let answer = match ans {
